@@ -6,6 +6,7 @@ import ast
 from ..astutil import (call_name, calls_in, const_value, find_func, is_self_attr, names_in, parse_expr, parse_stmt,
                        replace_node)
 from ..cfg import CFG
+from ..dataflow import inline_env
 from ..astutil import subst_names
 from ..frontend import AnalysisError, walk_function
 from ..report import norm_text
@@ -740,6 +741,30 @@ def _cache(ctx):
                 ctx.violated(f, f.node, "%s.K setter neither sets _K with a rebuild nor delegates to the rebuilding setter" % ci.name)
 
 
+def _same_closed_form(prog, a, b):
+    """both methods have one return whose value - private helpers inlined, locals replaced by their closed forms (conditional
+    re-bindings as conditional expressions), parameters named by position - is the same expression"""
+    from ..inline import inlined
+    from ..astutil import subst_names
+
+    def closed(fi):
+        fi = inlined(prog, fi)
+        rets = [r for r in walk_function(fi.node) if isinstance(r, ast.Return) and r.value is not None]
+        if len(rets) != 1:
+            return None
+        try:
+            env = inline_env(CFG(fi.node), rets[0])
+        except AnalysisError:
+            return None
+        if env.pop("__ambiguous__", None):
+            return None
+        e = subst_names(rets[0].value, env)
+        ren = {p: ast.Name(id="_p%d" % i, ctx=ast.Load()) for i, p in enumerate(q for q in fi.params if q != "self")}
+        return norm_text(subst_names(e, ren))
+    ca, cb = closed(a), closed(b)
+    return ca is not None and ca == cb
+
+
 def _siblings(ctx):
     prog = ctx.prog
     ctx.rule("R-C06-7", floor=14, what="duplicated helpers agree across classes; secondary helpers = primary under the Masing substitution")
@@ -749,6 +774,8 @@ def _siblings(ctx):
         if a is None or b is None:
             raise AnalysisError("helper %s missing in one law class" % name)
         d, na, nb = diff_blocks(strip_identity_conversions(prog, a, a.node.body), strip_identity_conversions(prog, b, b.node.body))
+        if d and _same_closed_form(prog, a, b):
+            d = []                           # one class computes it through an extracted private helper / other temporaries
         if not d and norm_text(a.node.args) == norm_text(b.node.args):
             ctx.holds(b, b.node, "%s identical in ExtendedNeuber and SeegerBeste (%d statements)" % (name, na))
         else:
